@@ -529,6 +529,25 @@ def ident_run(fns, table, comb, faithful_notes):
             checked += 1
             if 'map(keyword("%s"),|x|{begin_keywords("%s");x})' % (spec, spec) not in raw:
                 failures.append(fail('version_specifier', 'C13.kw.version_specifier-%s' % spec, 'the alternative for "%s" does not begin_keywords("%s")' % (spec, spec), ['C13'], vs))
+    # (6) the reserved-word tables themselves: equal (as sets) to the committed reference transcription of the
+    #     keyword lists of IEEE 1364-1995 .. 1800-2017 Annex B (gvc/keywords_ref.json): detects drift of a table
+    try:
+        ref = json.load(open(os.path.join(VERIF, 'gvc', 'keywords_ref.json')))
+        raw_kw = open(os.path.join(REPO, 'sv-parser-parser/src/keywords.rs'), encoding='utf-8').read()
+        cur = {}
+        for m in re.finditer(r'const\s+(KEYWORDS_\w+)\s*:\s*&\[&str\]\s*=\s*&\[(.*?)\];', raw_kw, re.S):
+            cur[m.group(1)] = re.findall(r'"([^"]*)"', m.group(2))
+        for tname, words in sorted(ref.items()):
+            checked += 1
+            if tname not in cur:
+                failures.append(fail('keywords', 'C13.kw.table-missing-%s' % tname, 'keyword table %s not found' % tname, ['C13'], Dummy('sv-parser-parser/src/keywords.rs', 1)))
+            elif set(cur[tname]) != set(words):
+                missing = sorted(set(words) - set(cur[tname]))[:5]
+                extra = sorted(set(cur[tname]) - set(words))[:5]
+                failures.append(fail('keywords', 'C13.kw.table-content-%s' % tname, 'table %s differs from the reference: missing %s, extra %s' % (tname, missing, extra), ['C13'],
+                                     Dummy('sv-parser-parser/src/keywords.rs', raw_kw[:raw_kw.index(tname)].count('\n') + 1)))
+    except (IOError, ValueError) as ex:
+        undecided.append('keyword tables could not be read: %s' % ex)
     # (5) keyword(t): end of input or a non-identifier character must follow
     kw = comb.get('keyword')
     checked += 1
